@@ -29,16 +29,21 @@ def rewrite_lines(
     """Replace occurances of patterns in old_lines with new_vinfo."""
     found_patterns: typ.Set[Pattern] = set()
 
-    new_lines = old_lines[:]
+    replacements: typ.List[typ.Tuple[int, typ.Tuple[int, int], str]] = []
     for match in parse.iter_matches(old_lines, patterns):
         found_patterns.add(match.pattern)
         normalized_pattern = v2patterns.normalize_pattern(
             match.pattern.version_pattern, match.pattern.raw_pattern
         )
         replacement = v2version.format_version(new_vinfo, normalized_pattern)
-        span_l, span_r = match.span
-        new_line = match.line[:span_l] + replacement + match.line[span_r:]
-        new_lines[match.lineno] = new_line
+        replacements.append((match.lineno, match.span, replacement))
+
+    # There may be multiple (non overlapping) matches on the same line.
+    # They are applied right to left, so spans of the old line stay valid.
+    new_lines = old_lines[:]
+    for lineno, (span_l, span_r), replacement in sorted(replacements, reverse=True):
+        cur_line = new_lines[lineno]
+        new_lines[lineno] = cur_line[:span_l] + replacement + cur_line[span_r:]
 
     if set(patterns) == found_patterns:
         return new_lines
